@@ -415,6 +415,20 @@ def main():
                 violations.append(f)
     rc = 0
     lines = []
+    # bounded executable companions (tools/witness.py): always in the thorough tier; as a stand-in when the proof is UNDECIDED
+    wit_runs = []
+    if (undecided and not violations) or tier == "thorough":
+        try:
+            import witness as W
+            wit_runs = W.run_property(pid)
+        except Exception as e:
+            wit_runs = [dict(name="?", fails=[], cases=0, error="witness runner crashed: %s" % e, bound="", cmd=None)]
+        for w in wit_runs:
+            if w["fails"]:
+                violations.append(dict(label="%s.witness.%s" % (pid, w["name"]), fn=None, unit="witness", src=None, clause="bounded witness: " + w.get("bound", ""),
+                                       msg="the real code contradicts the property's oracle on a concrete input (proof machinery: %s)" % ("UNDECIDED on this tree" if undecided else "see other obligations"),
+                                       rendered=json.dumps(w["fails"][:5]),
+                                       witness=dict(failing_input=w["fails"][0], all_failing=w["fails"][:10], cases=w["cases"], how=w["cmd"], cmd="python3 tools/witness.py %s" % pid, witness=w["name"], bound=w.get("bound"))))
     for (k, f) in known_hit:
         lines.append("KNOWN-FINDING: property=%s %s [%s]" % (pid, k["what"], k["obligation"]))
     seen = set()
@@ -434,7 +448,7 @@ def main():
     if undecided and violations:
         for u in undecided:
             lines.append("note: also undecided: %s" % u)
-    write_evidence(pid, pinfo, tier, seed, results, known_hit, vio_out, undecided, time.time() - t0, reg, foreign)
+    write_evidence(pid, pinfo, tier, seed, results, known_hit, vio_out, undecided, time.time() - t0, reg, foreign, wit_runs)
     for l in dict.fromkeys(lines):
         print(l)
     if rc == 0:
@@ -483,7 +497,7 @@ def replay(path):
     return 1
 
 
-def write_evidence(pid, pinfo, tier, seed, results, known_hit, violations, undecided, wall, reg, foreign=()):
+def write_evidence(pid, pinfo, tier, seed, results, known_hit, violations, undecided, wall, reg, foreign=(), wit_runs=()):
     functions = []
     trusted = []
     assumptions = list(pinfo.get("assumptions", []))
@@ -537,7 +551,7 @@ def write_evidence(pid, pinfo, tier, seed, results, known_hit, violations, undec
         known_findings=kf,
         other_property_failures=[dict(obligation=f["label"], function=f.get("fn"), unit=f["unit"]) for f in foreign],
         undecided=undecided,
-        bounded_companions=bounded,
+        bounded_companions=bounded + [dict(harness="witness/" + w["name"], bound=w.get("bound"), cases=w["cases"], failing=len(w["fails"]), error=w.get("error"), wall_s=w.get("wall_s")) for w in wit_runs],
         rule="obligation = one function-level SMT query reported by Verus (exec/proof function or spec termination), one CBMC property, or one Kani check; counted by the back end on this run",
         exhaustive=False,
     )
